@@ -477,10 +477,7 @@ func setMapField(field reflect.Value, fieldType reflect.Type, isPtr bool, mapArr
 	items := mapArr.Items()
 	length := int(end - start)
 
-	if isPtr {
-		fieldType = fieldType.Elem()
-	}
-
+	// fieldType is already dereferenced by the caller.
 	m := reflect.MakeMapWithSize(fieldType, length)
 	for j := 0; j < length; j++ {
 		k := reflect.New(fieldType.Key()).Elem()
